@@ -121,6 +121,8 @@ class Layout:
             return "None"
         if t is ANY:
             return "Any"
+        if type(t).__name__ == "BadTypeV":
+            return f"!{t.what}"
         raise AnalysisError(f"unmodelled type reference {t!r}")
 
     @staticmethod
